@@ -34,6 +34,7 @@ class Module:
         self.star_imports = []  # module names
         self.defs = {}         # top-level name -> ast node (def/class/assign)
         self.assigns = {}      # top-level name -> value expr (last wins)
+        self.item_assigns = {}  # top-level name -> [(key expr, value expr)]
         self.all_assigns = {}  # top-level name -> [value exprs]
         self.dunder_all = None
         for n in ast.walk(self.tree):
@@ -80,6 +81,12 @@ class Module:
                 self.defs[st.name] = st
             elif isinstance(st, ast.Assign):
                 for t in st.targets:
+                    if isinstance(t, ast.Subscript) and isinstance(
+                            t.value, ast.Name):
+                        # TABLE[k] = v at module level
+                        self.item_assigns.setdefault(t.value.id, []).append(
+                            (t.slice, st.value))
+                        continue
                     for nm in _target_names(t):
                         self.defs[nm] = st
                         if isinstance(t, ast.Name):
